@@ -138,10 +138,11 @@ func isWord(c byte) bool {
 // gap writes the white space / comments between two tokens.
 func (w *writer) gap(prev, next string, noNL bool) {
 	need := prev != "" && next != "" && isWord(prev[len(prev)-1]) && isWord(next[0])
-	// never glue operators into other operators ("+ +", "- -", "/ /")
+	// never glue operators into other operators ("+ +", "= =", "< >", "/ /")
 	if prev != "" && next != "" && !need {
 		a, b := prev[len(prev)-1], next[0]
-		if (a == '+' || a == '-' || a == '/' || a == '*') && (b == '+' || b == '-' || b == '/' || b == '*') {
+		const ops = "+-*/=<>!&|?:%^~"
+		if strings.IndexByte(ops, a) >= 0 && strings.IndexByte(ops, b) >= 0 {
 			need = true
 		}
 	}
